@@ -12,11 +12,12 @@ s=open(p).read()
 n=len(re.findall(old,s))
 if n!=1:
     print("pattern matches %d times"%n); sys.exit(3)
+new=new.encode().decode('unicode_escape')
 open(p,'w').write(re.sub(old,lambda m:new,s,count=1))
 PY
 rc=$?
 if [ $rc -ne 0 ]; then git checkout -- .; exit $rc; fi
 git diff | grep '^[+-][^+-]' | head -6
-cd /verif && timeout 3000 ./check $prop --tier $tier | cut -c1-400 | tail -5
+touch /tmp/.mutstart; cd /verif && timeout 3000 ./check $prop --tier $tier | cut -c1-400 | tail -5
 echo "mut rc=${PIPESTATUS[0]}"
-cd /repo && git checkout -- .
+find /verif/replays -type f -newer /tmp/.mutstart -delete 2>/dev/null; cd /repo && git checkout -- .
